@@ -1,5 +1,6 @@
 import OrsoVerif.Model.PyVal
 import OrsoVerif.Model.Arrow
+import OrsoVerif.Model.ArrowFrame
 /-! Driver glue for C11: decode tables / columns / Arrow types, run the model, encode. -/
 namespace Drv.C11
 open Arrow
@@ -59,8 +60,74 @@ def decOptTy : PyVal → Option (Option OrsoTy)
   | .str s => (OrsoTy.ofName s).map some
   | _ => none
 
+/-- a table whose rows are lists of cells -/
+def decodeRowTable (v : PyVal) : Option (Table (List PyVal)) := do
+  let chunks ← asList v
+  chunks.mapM (fun ch => do
+    let rows ← asList ch
+    rows.mapM asList)
+
+def decodeOp : PyVal → Option (Op (List PyVal))
+  | .list [.str "arrow", sz] => (optInt sz).map .arrow
+  | .list [.str "observe"] => some .observe
+  | .list [.str "head", .int k] => if k ≥ 0 then some (.head k.toNat) else none
+  | .list [.str "fetch", k] => (optNat k).map .fetch
+  | .list [.str "append", .list r] => some (.append r)
+  | _ => none
+
+def encOut : Out PyVal → PyVal
+  | .table t => .list [.str "table", .list (t.names.map .str), .int t.numRows, .list (t.rows.map .list)]
+  | .rows rs => .list [.str "rows", .list (rs.map .list)]
+  | .error => .list [.str "error"]
+
+/-- the frame a `seq` case starts from -/
+def decodeFrame (source : String) (data : PyVal) : Option (Fr (List PyVal)) :=
+  match source with
+  | "arrow" => do
+    let ts ← asList data
+    let tables ← ts.mapM decodeRowTable
+    pure (.lazy (init tables none))
+  | "gen" => do
+    let rs ← asList data
+    let rows ← rs.mapM asList
+    pure (.lazy (ofRows rows))
+  | "list" => do
+    let rs ← asList data
+    let rows ← rs.mapM asList
+    pure (Fr.ofList rows)
+  | _ => none
+
+/-- one column definition -> [field, column that comes back] (the `forth` op) -/
+def forthOne : PyVal → Option PyVal
+  | .list [.str name, .str ty, el, p, s, .bool nullable] => do
+    let t ← OrsoTy.ofName ty
+    let e ← decOptTy el
+    let p ← optNat p
+    let s ← optNat s
+    let ps := normalise t p s
+    let c : Col := { name := name, type := t, elem := e, precision := ps.1, scale := ps.2, nullable := nullable }
+    let f := arrowField c
+    pure (.list [encField f, match fromArrowField false f with
+      | some c' => encCol c'
+      | none => .list [.str "err", .str "ValueError"]])
+  | _ => none
+
 def handle (op : String) (args : List PyVal) : Option (List PyVal) :=
   match op, args with
+  | "forths", [.list cols] => do
+    let rs ← cols.mapM forthOne
+    pure [.list rs]
+  | "seq", [.list names, .str source, data, .list ops] => do
+    let ns ← names.mapM asStr
+    let f ← decodeFrame source data
+    let os ← ops.mapM decodeOp
+    let r := run ns f os
+    pure [.list (r.1.map encOut), .list (r.2.listRows.map .list)]
+  | "iterb", [.list tables, size, .int batch] => do
+    let ts ← tables.mapM decodeTable
+    let m ← optNat size
+    if batch ≤ 0 then none
+    else pure [.list (drain { tables := ts, current := [], processed := 0, maxSize := m, batch := batch.toNat })]
   | "iter", [.list tables, size] => do
     let ts ← tables.mapM decodeTable
     let sz ← optNat size
